@@ -198,6 +198,87 @@ def crossingsMeta (g : GGrid) (eps : Rat) (va vb : Pt) : List Cross :=
   if (j = 0 ∧ i < -1) ∨ (i = 0 ∧ j < -1) then (crossingsOf g eps va vb).reverse
   else crossingsOf g eps va vb
 
+/-- one slot of `intersection_metadata`; `none` is the preallocated `(NULL_DART_ID, NaN)` -/
+abbrev Slot := Option (Nat × Rat)
+
+/-- the slots `intersection_metadata[start .. start + dist]` of the segment as the kernel leaves them:
+    `dist = |Δi| + |Δj|` slots are preallocated with `(0, NaN)`; in the diagonal branch an entry with
+    `t = 0` (the segment goes through a grid corner) becomes `GeometryVertex::IntersecCorner` and its slot
+    is not written; the slots beyond the entries found are not written either (a corner is one entry
+    for two grid lines).  For a segment in general position every slot is written
+    (`C16_slots_genpos`). -/
+def slotsOf (g : GGrid) (eps : Rat) (va vb : Pt) : List Slot :=
+  let c1 := cellOf g va
+  let c2 := cellOf g vb
+  let i : Int := (c2.1 : Int) - (c1.1 : Int)
+  let j : Int := (c2.2 : Int) - (c1.2 : Int)
+  let l : List Slot := (crossingsMeta g eps va vb).map fun c =>
+    if i ≠ 0 ∧ j ≠ 0 ∧ c.t = 0 then none else some (c.dart, c.t)
+  l ++ List.replicate (i.natAbs + j.natAbs - l.length) none
+
+/-! ## steps 2 and 3: `group_intersections_per_edge`, `compute_intersection_ids`
+    (`routines/process_intersecs_data.rs`)
+
+  Pure functions of the slot vector and of β2 of the grid.  The `HashMap<EdgeIdType, Vec<…>>` is iterated
+  three times (`values_mut`, `values`, `iter`) without modification in between, hence in one and the same
+  unspecified order: the model takes that order (`keys`) as an argument. -/
+
+/-- `cmap.edge_id(d)` of a 2-map: the smaller dart of the edge -/
+def edgeOf (b2 : Nat → Nat) (d : Nat) : Nat := if b2 d ≠ 0 ∧ b2 d < d then b2 d else d
+
+/-- `(idx, t, dart_id)`: rank among the non-NaN slots, position relative to the edge's identifier dart,
+    the dart that was hit -/
+structure Hit where
+  idx : Nat
+  t : Rat
+  dart : Nat
+deriving DecidableEq, Repr
+
+/-- `.into_iter().filter(|(_, t)| !t.is_nan()).enumerate()` with the side adjustment `t = 1 - t` — the
+    filter comes BEFORE `enumerate`: `idx` is the rank among the written slots, not the slot number -/
+def hitsOf (b2 : Nat → Nat) (slots : List Slot) : List (Nat × Hit) :=
+  ((slots.filterMap id).zipIdx).map fun x =>
+    let e := edgeOf b2 x.1.1
+    (e, { idx := x.2, t := if e ≠ x.1.1 then 1 - x.1.2 else x.1.2, dart := x.1.1 })
+
+/-- stable insertion by `t` (`sort_by` is a stable sort) -/
+def insertHit (h : Hit) : List Hit → List Hit
+  | [] => [h]
+  | x :: xs => if h.t < x.t then h :: x :: xs else x :: insertHit h xs
+
+def sortHits (l : List Hit) : List Hit := l.foldl (fun acc h => insertHit h acc) []
+
+/-- the value stored under the key `e`: its hits in slot order, then sorted by `t` -/
+def groupOf (hs : List (Nat × Hit)) (e : Nat) : List Hit :=
+  sortHits ((hs.filter (fun x => x.1 = e)).map (·.2))
+
+/-- the map in its iteration order -/
+def groupsOf (hs : List (Nat × Hit)) (keys : List Nat) : List (Nat × List Hit) :=
+  keys.map fun e => (e, groupOf hs e)
+
+/-- `dart_slices`: consecutive blocks of `2 * len` new darts from `base = add_free_darts(n_tot)` on -/
+def slicesFrom : Nat → List Nat → List (List Nat)
+  | _, [] => []
+  | base, k :: ks => List.range' base (2 * k) :: slicesFrom (base + 2 * k) ks
+
+/-- the assignments `res[*id] = …` of `compute_intersection_ids`, in execution order:
+    `fh[i]` on the side of the edge's identifier dart, `sh[hl - 1 - i]` on the other side -/
+def idAssignments (gs : List (Nat × List Hit)) (sl : List (List Nat)) : List (Nat × Nat) :=
+  (gs.zip sl).flatMap fun x =>
+    let hl := x.2.length / 2
+    x.1.2.zipIdx.map fun hi =>
+      (hi.1.idx, if hi.1.dart = x.1.1 then x.2.getD hi.2 0 else x.2.getD (hl + (hl - 1 - hi.2)) 0)
+
+/-- `compute_intersection_ids(n_intersec, …)`: `vec![NULL_DART_ID; n_intersec]` then the assignments -/
+def intersectionIds (n : Nat) (gs : List (Nat × List Hit)) (sl : List (List Nat)) : List Nat :=
+  (idAssignments gs sl).foldl (fun r a => r.set a.1 a.2) (List.replicate n 0)
+
+/-- steps 2 together, for the iteration order `keys`: the dart of every SLOT (what step 4 reads with
+    `intersection_darts[id]`, `id` being the slot number of `GeometryVertex::Intersec(id)`) -/
+def intersectionDarts (b2 : Nat → Nat) (base : Nat) (slots : List Slot) (keys : List Nat) : List Nat :=
+  let gs := groupsOf (hitsOf b2 slots) keys
+  intersectionIds slots.length gs (slicesFrom base (gs.map (·.2.length)))
+
 /-- the point of the segment at parameter `s` -/
 def segPoint (va vb : Pt) (s : Rat) : Pt := (va.1 + s * (vb.1 - va.1), va.2 + s * (vb.2 - va.2))
 
